@@ -308,8 +308,64 @@ def micro_scenarios():
         "sims": [_sim("X", "hybrid", steps=[1], emit=[1]), _sim("Y", "hybrid", steps=[0], emit=[0])],
         "conns": [_c("X", "eo", "Y", "ti", weak=True), _c("Y", "po", "X", "mi", shift=1, init=True)],
         "until": 5}
+    # three simulators in one group: E is only stepped by W's weak output (at sub-step (t,1)), feeds C plainly and
+    # reads C's time-shifted measurement (a cycle E -> C -> E); C may still be busy with t-1 when E is due
+    out["weak_triggered_reader_of_shifted_loop"] = {
+        "tree": [["W", "E", "C"]],
+        "sims": [_sim("W", "time-based", steps=[1]), _sim("E", "hybrid", steps=[0], emit=[0]),
+                 _sim("C", "time-based", steps=[1])],
+        "conns": [_c("W", "po", "E", "ti", weak=True), _c("E", "po", "C", "mi"),
+                  _c("C", "po", "E", "mi", shift=1, init=True)],
+        "until": 4}
     for s in out.values():
         s.setdefault("initial_events", {})
         s.setdefault("world", {"cache": True})
         s.setdefault("run", {"lazy_stepping": True})
     return out
+
+
+def long_scenarios():
+    """A few *long* runs (until 80..1100): fast paths and bookkeeping that only engage beyond a size threshold
+    (dozens of pending steps or cache entries, a thousand steps of one simulator) are never reached by the small
+    generated scenarios.  Run under a handful of fixed schedules, not enumerated."""
+    out = {}
+    # a producer running far ahead (lazy off) leaves the triggered simulator with dozens of pending steps; its
+    # self-scheduled step coincides with a trigger from a loop closed with a time shift
+    out["long_runahead_trigger_loop"] = {
+        "tree": ["A", "B", "C"],
+        "sims": [_sim("A", "time-based", steps=[2]), _sim("B", "hybrid", steps=[1], emit=[1]),
+                 _sim("C", "event-based", emit=[1])],
+        "conns": [_c("A", "po", "B", "ti"), _c("B", "eo", "C", "ti"), _c("C", "eo", "B", "ti", shift=1)],
+        "until": 80, "world": {"cache": True}, "run": {"lazy_stepping": False}, "initial_events": {}}
+    # a sparse producer far ahead of a consumer that steps between its outputs: a long output cache
+    out["long_sparse_producer"] = {
+        "tree": ["P", "C"],
+        "sims": [_sim("P", "time-based", steps=[3]), _sim("C", "time-based", steps=[1])],
+        "conns": [_c("P", "po", "C", "mi")],
+        "until": 120, "world": {"cache": True}, "run": {"lazy_stepping": False}, "initial_events": {}}
+    # more than a thousand steps per simulator, two independent producer -> triggered consumer pairs
+    many = {
+        "tree": ["X", "D", "Z", "W"],
+        "sims": [_sim("X", "time-based", steps=[1]), _sim("D", "event-based", emit=[0]),
+                 _sim("Z", "time-based", steps=[1]), _sim("W", "event-based", emit=[0])],
+        "conns": [_c("X", "po", "D", "ti"), _c("Z", "po", "W", "ti")],
+        "until": 1100, "world": {"cache": True}, "run": {"lazy_stepping": True}, "initial_events": {}}
+    out["long_many_steps"] = many
+    import copy
+    sync = copy.deepcopy(many)
+    for sm in sync["sims"]:
+        sm["transport"] = "sync"        # immediate replies, like the repository's own test simulators
+    out["long_many_steps_sync"] = sync
+    return out
+
+
+def long_cases(max_until=None):
+    """(name, case) pairs: every long scenario under FIFO, LIFO and with its second simulator starved"""
+    for name, scn in sorted(long_scenarios().items()):
+        if max_until is not None and scn["until"] > max_until:
+            continue
+        scheds = [{}, {"policy": "lifo"}]
+        if scn["until"] <= 200:
+            scheds.append({"policy": "starve", "arg": scn["sims"][1]["sid"]})
+        for sched in scheds:
+            yield name, {"scenario": scn, "schedule": sched}
